@@ -81,6 +81,24 @@ def substitution():
         return "after the substitution block mv is not the original Jacobian"
 
 
+def substitution_after_non_tensor():
+    def f(k, y, s):
+        return torch.stack([k * y[0] ** 2 * s + y[1], torch.sin(y[1]) + y[0] * y[2], y[2] ** 3])
+    y = torch.tensor([0.3, -0.7, 1.1], dtype=dt, requires_grad=True)
+    s = torch.tensor(1.5, dtype=dt, requires_grad=True)
+    J = jac(f, (2.0, y, s), idxs=1)
+    u = torch.tensor([1.0, -2.0, 0.5], dtype=dt)
+    y2 = torch.tensor([1.3, 0.2, -0.4], dtype=dt, requires_grad=True)
+    s2 = torch.tensor(0.5, dtype=dt, requires_grad=True)
+    Jd2 = _dense(lambda yy: f(2.0, yy, s2), y2)
+    with J.uselinopparams(y2, s2):
+        got, gott = J.mv(u), J.rmv(u)
+    if not torch.allclose(got, Jd2 @ u, rtol=1e-10, atol=1e-12):
+        return "argument after a non-tensor: mv after substitution is not the Jacobian at the new point"
+    if gott.shape != u.shape or not torch.allclose(gott, Jd2.T @ u, rtol=1e-10, atol=1e-12):
+        return "argument after a non-tensor: rmv after substitution is not the transposed Jacobian at the new point"
+
+
 def hessian():
     a = torch.tensor([2.0, 3.0], dtype=dt, requires_grad=True)
     m = EM(a)
@@ -110,7 +128,7 @@ def index_validation():
             pass
 
 
-TABLE = {"products": products, "substitution": substitution, "hessian": hessian, "index_validation": index_validation}
+TABLE = {"products": products, "substitution": substitution, "substitution_after_non_tensor": substitution_after_non_tensor, "hessian": hessian, "index_validation": index_validation}
 
 if __name__ == "__main__":
     run_oracles(TABLE, sys.argv)
